@@ -16,7 +16,11 @@ LevelsOf(a) == CASE a \in {"gzip", "zlib"} -> 0..9
                  [] OTHER -> {}
 Algos == {"none", "gzip", "zlib", "zstd", "lz4", "brotli_generic", "brotli_text", "brotli_font"}
 HasLevels(a) == a \notin {"none", "lz4"}
-Payloads == {"empty", "one_byte", "incompressible_4k", "repetitive_64k", "repetitive_512k", "text_8k", "under_limit"}
+\* "own_frame": the payload is itself a frame of the algorithm in use (a pre-compressed blob);
+\* "magic_prefix": it merely starts with the magic bytes of every format; "repetitive_3m": far beyond the
+\* frame limit before compression, tiny after it (the limit applies to what goes on the wire)
+Payloads == {"empty", "one_byte", "incompressible_4k", "repetitive_64k", "repetitive_512k", "text_8k", "under_limit",
+             "own_frame", "magic_prefix", "repetitive_3m"}
 SmallPayloads == {"empty", "one_byte", "incompressible_4k", "text_8k"}
 Codecs == {"string", "bytes", "bincode"}
 Batching == {0, 3}
@@ -48,7 +52,10 @@ Base ==
 WithHistory(c, h) == [algo |-> c.algo, level |-> c.level, payload |-> c.payload, codec |-> c.codec, batch |-> c.batch, history |-> h]
 Configs == {WithHistory(c, "fresh") : c \in Base}
            \cup {WithHistory(c, h) : c \in {x \in Base : x.payload \in SmallPayloads /\ x.level.kind # "explicit"}, h \in Histories \ {"fresh"}}
-Cases == {c \in Configs : c.level.kind # "explicit" \/ c.level.n \in LevelsOf(c.algo)}
+\* the three special payload classes make sense with a compressor only; the 3 MiB one goes unbatched through the bytes codec
+Sensible(c) == /\ (c.payload \in {"own_frame", "magic_prefix", "repetitive_3m"} => c.algo # "none")
+               /\ (c.payload = "repetitive_3m" => c.codec = "bytes" /\ c.batch = 0 /\ c.level.kind # "explicit")
+Cases == {c \in Configs : (c.level.kind # "explicit" \/ c.level.n \in LevelsOf(c.algo)) /\ Sensible(c)}
 
 VARIABLE case
 PInit == case \in Cases
